@@ -3483,6 +3483,13 @@ class RoConstr:
         if support is None:
             raise RuntimeError('The support of random variables is undefined.')
         size_support = support.linear.shape[1]
+        unrestricted = []
+        if num_rand > support.linear.shape[0]:
+            # random variables declared after the set was compiled are not
+            # restricted by it: their coefficients must vanish
+            tail = self.raffine[:, support.linear.shape[0]:]
+            if tail.linear.nnz > 0 or np.any(tail.const):
+                unrestricted = [tail == 0]
         num_rand = min(num_rand, support.linear.shape[0])
 
         dual_var = self.dec_model.dvar((num_constr, size_support))
@@ -3518,6 +3525,8 @@ class RoConstr:
                                 sense3)
             constr_list = [constr1, constr2, constr3]
             constr_list += [] if bounds is None else bounds
+
+        constr_list += unrestricted
 
         for n in range(num_constr):
             for qconstr in support.qmat:
